@@ -121,7 +121,7 @@ def main(tier, seed):
         it["tail_goals"] = [{"monom": g, "a": a, "moments": 3} for g in singles for a in ("1", "2", "5")]
     # a growing counter: thresholds at or below the mean while the mass sits above them
     items.append({"id": "tail-counter", "text": "x = 0\nwhile true:\n    f = Bernoulli(3/4)\n    x = x + f\nend\n", "T": None,
-                  "goals": ["x"], "points": [{}], "stat_goals": ["x"], "K": 4, "origin": "tail bounds: growing counter",
+                  "goals": ["x"], "points": [{}], "stat_goals": ["x"], "K": 6, "origin": "tail bounds: growing counter",
                   "tail_goals": [{"monom": "x", "a": a, "moments": 3} for a in ("1", "2", "4", "6")]})
     items.append({"id": "tail-transient", "text": "x = 6\nwhile true:\n    x = x/2 + 1 {1/2} x/2\nend\n", "T": None,
                   "goals": ["x"], "points": [{}], "stat_goals": ["x"], "K": 4, "origin": "tail bounds: transient above the threshold",
@@ -130,7 +130,7 @@ def main(tier, seed):
     # the expansion actions (cli.common.get_all_cumulants with --at_n)
     for name, text, sg in (("delay_line", "x = 3\ny = 1\nz = 2\ns = 0\nwhile true:\n    x = y\n    y = z\n    z = Bernoulli(1/2)\n    s = s + x\nend\n", ["s", "x"]),
                            ("delay_choice", "a = 2\nb = 0\nc = 1\nwhile true:\n    a = b\n    b = c\n    c = c + 1 {1/3} 0\nend\n", ["a", "b"])):
-        items.append({"id": "transient-" + name, "text": text, "T": None, "goals": sg, "points": [{}], "stat_goals": sg, "K": 4,
+        items.append({"id": "transient-" + name, "text": text, "T": None, "goals": sg, "points": [{}], "stat_goals": sg, "K": 6,
                       "origin": "transient " + name, "tail_goals": []})
     return analysis_check("C11", tier, seed, items=items, want=["parsed", "central", "cumulant", "tail", "allcum"], builders=[C.b_source, C.b_stats, C.b_tail],
                           N=8 if quick else 10, timeout=120 if quick else 300, post=expansions_part, key_fn=key_fn,
